@@ -291,7 +291,7 @@ def gen_ops(rng, m, nops, mode="unchecked"):
     for _ in range(nops):
         r = rng.random()
         if r < 0.62:
-            kind = "planr" if mode == "unchecked" or rng.random() < 0.3 else "plancr"
+            kind = "planr" if mode == "unchecked" or (mode == "checked" and rng.random() < 0.3) else "plancr"
             ops.append("op %s %d %d %d %s" % (kind, rng.randrange(1 << 20), rng.randrange(1 << 20), rng.randrange(1 << 20),
                                               " ".join(str(rng.randrange(1 << 20)) for _ in range(maxu))))
         elif r < 0.92:
